@@ -16,7 +16,7 @@ from dataclasses import dataclass
 from pathlib import Path
 
 VERIF = Path(__file__).resolve().parent.parent
-REPO = Path("/repo")
+REPO = Path(os.environ.get("MCX_REPO") or "/repo")
 SCHEMA = Path("/root/.vp/EVIDENCE.schema.json")
 
 
